@@ -75,6 +75,12 @@ let eval (op : string) (args : sx list) : sx list =
       (scan_fasta (bytes_of_sx inp))
   | "as_location", [s] -> sx_of_out (fun l -> [sx_of_loc l]) (as_location (bytes_of_sx s))
   | "try_location", [s] -> sx_of_out (fun l -> [sx_of_loc l]) (try_location (bytes_of_sx s))
+  | "selector", [s; f] ->
+    sx_of_out (fun p -> [sx_of_bool (feval frag_match p (feature_of_sx f))]) (selector frag_ok (bytes_of_sx s))
+  | "shift_selector", [s] -> let (h, t) = shift_selector (bytes_of_sx s) false [] in [A "ok"; sx_of_bytes h; sx_of_bytes t]
+  | "filter_eval", [p; f] -> [A "ok"; sx_of_bool (feval frag_match (filt_of_sx p) (feature_of_sx f))]
+  | "feature_filter", [p; L fs] ->
+    [A "ok"; L (List.map sx_of_feature (feature_filter frag_match (filt_of_sx p) (List.map feature_of_sx fs)))]
   | _ -> [A "unknown-op"]
 
 let () =
